@@ -124,7 +124,7 @@ public:
 		uint32_t ti = s->total_in, to = s->total_out, ai = s->avail_in, ao = s->avail_out;
 		uint8_t *ni = s->next_in, *no = s->next_out;
 		int rc = 0;
-		guard::Fault f = guard::call([&] { rc = o.stateless ? isal_deflate_stateless(s) : isal_deflate(s); });
+		guard::Fault f = guard::call_timed([&] { rc = o.stateless ? isal_deflate_stateless(s) : isal_deflate(s); }, 120);
 		calls++;
 		if (getenv("VERIF_TRACE"))
 			fprintf(stderr, "deflate call %llu: add=%zu avail_in=%u cap=%zu flush=%d eos=%d -> rc=%d%s consumed=%u produced=%u state=%d has_hist=%d hash_mask=%x total_in=%u b_valid=%u b_proc=%u\n", (unsigned long long) calls, add_len, ai, out_cap,
@@ -208,7 +208,7 @@ public:
 		uint32_t to = s->total_out, ai = s->avail_in, ao = s->avail_out;
 		uint8_t *ni = s->next_in, *no = s->next_out;
 		int rc = 0;
-		guard::Fault f = guard::call([&] { rc = o.stateless ? isal_inflate_stateless(s) : isal_inflate(s); });
+		guard::Fault f = guard::call_timed([&] { rc = o.stateless ? isal_inflate_stateless(s) : isal_inflate(s); }, 120);
 		calls++;
 		if (getenv("VERIF_TRACE"))
 			fprintf(stderr, "inflate call %llu: add=%zu avail_in=%u cap=%zu -> rc=%d%s avail_in'=%u next_in+%td avail_out'=%u next_out+%td block_state=%d read_in_length=%d tmp_in_size=%d total_out=%u\n", (unsigned long long) calls, add_len, ai,
